@@ -62,10 +62,15 @@ impl Kernel<f64, Vec<f64>> for AnyK {
     }
 }
 
-/// kernel descriptor: {"name","deg","gn","gd","cn","cd"}: gamma = gn/gd, coef0 = cn/cd
+/// kernel descriptor: {"name","deg","dd","gn","gd","cn","cd"}: degree = deg/dd, gamma = gn/gd, coef0 = cn/cd
 /// (gd, cd powers of two, so both are exact binary floats)
 fn kdesc(name: &str, deg: i64, gn: i64, gd: i64, cn: i64, cd: i64) -> Value {
-    json!({"name": name, "deg": deg, "gn": gn, "gd": gd, "cn": cn, "cd": cd})
+    kdescf(name, deg, 1, gn, gd, cn, cd)
+}
+
+/// polynomial degree deg/dd (dd in {1, 2, 4}: exact binary floats 0.5, 1.5, 2.5, 0.25, ...)
+fn kdescf(name: &str, deg: i64, dd: i64, gn: i64, gd: i64, cn: i64, cd: i64) -> Value {
+    json!({"name": name, "deg": deg, "dd": dd, "gn": gn, "gd": gd, "cn": cn, "cd": cd})
 }
 
 fn kernel_of(k: &Value) -> AnyK {
@@ -74,7 +79,11 @@ fn kernel_of(k: &Value) -> AnyK {
     match k["name"].as_str().unwrap() {
         "linear" => AnyK::Lin(Kernels::linear()),
         "rbf" => AnyK::Rbf(Kernels::rbf(g)),
-        "poly" => AnyK::Poly(Kernels::polynomial(k["deg"].as_i64().unwrap() as f64, g, c)),
+        "poly" => AnyK::Poly(Kernels::polynomial(
+            k["deg"].as_i64().unwrap() as f64 / k["dd"].as_i64().unwrap_or(1) as f64,
+            g,
+            c,
+        )),
         "sigmoid" => AnyK::Sig(Kernels::sigmoid(g, c)),
         other => panic!("unknown kernel {}", other),
     }
@@ -82,7 +91,7 @@ fn kernel_of(k: &Value) -> AnyK {
 
 fn logged_kernel(k: &Value) -> bool {
     let n = k["name"].as_str().unwrap();
-    n == "rbf" || n == "sigmoid"
+    n == "rbf" || n == "sigmoid" || (n == "poly" && k["dd"].as_i64().unwrap_or(1) != 1)
 }
 
 // ------------------------------------------------------------------------------------------
@@ -207,7 +216,16 @@ fn kbound(k: &Value, pts: &[Vec<f64>]) -> (f64, f64) {
 }
 
 fn prod_ok(out: &Value, k: &Value, pts: &[Vec<f64>]) -> bool {
-    let (kmax, den) = kbound(k, pts);
+    let (mut kmax, den) = kbound(k, pts);
+    if logged_kernel(k) {
+        kmax = out["kq"]
+            .as_array()
+            .unwrap()
+            .iter()
+            .flat_map(|r| r.as_array().unwrap().iter())
+            .fold(0i64, |m, v| m.max(v.as_i64().unwrap().abs())) as f64
+            + 1.0;
+    }
     let w: Vec<i64> = ints_of(&out["w10"]);
     let sw: f64 = w.iter().map(|&x| (x.abs() + 1) as f64).sum();
     let fmax = ints_of(&out["f10"]).iter().fold(0i64, |m, &x| m.max(x.abs())) as f64;
@@ -467,6 +485,17 @@ fn rand_kernel(r: &mut StdRng, svr_psd: bool) -> Value {
     }
 }
 
+/// polynomial kernel of fractional degree for fits.  Its real closed form needs a non-negative
+/// base, so the caller makes the features non-negative (gamma > 0, coef0 >= 0).
+fn rand_root_kernel(r: &mut StdRng) -> Value {
+    let (deg, dd) = *[(1i64, 2i64), (3, 2), (1, 4), (3, 4)].choose(r).unwrap();
+    kdescf("poly", deg, dd, 1, *[1i64, 2, 4].choose(r).unwrap(), *[0i64, 1, 2].choose(r).unwrap(), 1)
+}
+
+fn abs_rows(x: &[Vec<i64>]) -> Vec<Vec<i64>> {
+    x.iter().map(|r| r.iter().map(|v| v.abs()).collect()).collect()
+}
+
 /// two-class integer data: separable (kind 0), overlapping (kind 1), with duplicated rows of
 /// opposite class (kind 2)
 fn rand_svc_data(r: &mut StdRng, n: usize, p: usize, kind: u32, a: i64) -> (Vec<Vec<i64>>, Vec<bool>) {
@@ -620,7 +649,9 @@ fn gen_svc(out: &mut Out) {
         let (x, pos) = rand_svc_data(&mut r, n, p, kind, amp);
         let lab = *LABELS.choose(&mut r).unwrap();
         let c = *CS.choose(&mut r).unwrap();
-        let k = rand_kernel(&mut r, false);
+        let root = it % 12 == 7;
+        let k = if root { rand_root_kernel(&mut r) } else { rand_kernel(&mut r, false) };
+        let x = if root { abs_rows(&x) } else { x };
         let epochs = r.gen_range(1..=4usize);
         let tol_e = *[7i64, 10, 13].choose(&mut r).unwrap();
         let unseeded = it % 25 == 24;
@@ -628,6 +659,7 @@ fn gen_svc(out: &mut Out) {
             if unseeded { vec![] } else { (0..=epochs).map(|_| rand_perm(&mut r, n)).collect() };
         let nq = r.gen_range(1..=4);
         let q: Vec<Vec<i64>> = (0..nq).map(|_| rand_row(&mut r, p, 4)).collect();
+        let q = if root { abs_rows(&q) } else { q };
         run += 1;
         let inp = svc_input(&x, &pos, lab, c, k, epochs, tol_e, sched, q);
         jobs.push(Job { run, src: if unseeded { "unseeded" } else { "rand" }, svr: false, inp });
@@ -687,6 +719,12 @@ fn gen_svr(out: &mut Out) {
         };
         let nq = r.gen_range(1..=3);
         let q: Vec<Vec<i64>> = (0..nq).map(|_| rand_row(&mut r, p, 4)).collect();
+        // every sixteenth fit: polynomial kernel of fractional degree on non-negative features (like
+        // sigmoid outside the termination / optimality clauses; feasibility and expansion are checked)
+        let root = it % 16 == 9;
+        let k = if root { rand_root_kernel(&mut r) } else { k };
+        let x = if root { abs_rows(&x) } else { x };
+        let q = if root { abs_rows(&q) } else { q };
         let y16: Vec<i64> = y4.iter().map(|v| v * 16384).collect();
         run += 1;
         let inp = json!({"X": x, "y16": y16, "Q": q, "Cn": c.0, "Cd": c.1, "C16": c.0 * 65536 / c.1,
@@ -723,6 +761,13 @@ fn gen_kernel(out: &mut Out) {
         (kdesc("poly", 3, 1, 4, 1, 2), 8),
         (kdesc("poly", 2, 3, 2, 0, 1), 10),
         (kdesc("poly", 1, 1, 1, -1, 1), 10),
+        // fractional degrees deg/dd: closed form decided through the dd-th power (Kernels.tla RootClosed)
+        (kdescf("poly", 1, 2, 1, 2, 1, 1), 8),
+        (kdescf("poly", 3, 2, 1, 2, 1, 1), 6),
+        (kdescf("poly", 5, 2, 1, 2, 1, 1), 6),
+        (kdescf("poly", 1, 4, 1, 1, 2, 1), 3),
+        (kdescf("poly", 3, 4, 1, 1, 2, 1), 3),
+        (kdescf("poly", 5, 4, 1, 1, 2, 1), 3),
         (kdesc("rbf", 1, 1, 8, 0, 1), 14),
         (kdesc("rbf", 1, 1, 2, 0, 1), 14),
         (kdesc("sigmoid", 1, 1, 8, 1, 2), 10),
@@ -745,7 +790,14 @@ fn gen_kernel(out: &mut Out) {
         let p = r.gen_range(1..=5usize);
         let x = rand_row(&mut r, p, 3);
         let z = if r.gen_bool(0.1) { x.clone() } else { rand_row(&mut r, p, 3) };
-        let (k, sc) = match r.gen_range(0..4) {
+        let (k, sc) = match r.gen_range(0..5) {
+            4 => {
+                // half- and quarter-integer degrees; coef0 large enough that most bases are >= 0
+                let dd = *[2i64, 2, 4].choose(&mut r).unwrap();
+                let deg = *[1i64, 3, 5].choose(&mut r).unwrap();
+                (kdescf("poly", deg, dd, 1, *[2i64, 4, 8].choose(&mut r).unwrap(),
+                        *[1i64, 2, 4].choose(&mut r).unwrap(), 1), if dd == 2 { 6 } else { 3 })
+            }
             0 => (kdesc("linear", 1, 1, 1, 0, 1), 10),
             1 => (kdesc("poly", *[1i64, 2, 3].choose(&mut r).unwrap(), *[1i64, 3].choose(&mut r).unwrap(),
                         *[1i64, 2, 4, 8].choose(&mut r).unwrap(), *[-1i64, 0, 1, 3].choose(&mut r).unwrap(),
